@@ -4,6 +4,16 @@
   LemmasEncData (MakeData normal form), LemmasEncInterest (MakeInterest normal form).
 -/
 import NdnVerif.C03.LemmasEncData
+import NdnVerif.C03.LemmasEncInterest
 namespace Ndn.C03
+
+theorem encSpecs : EncSpecs where
+  nameLen_eq := nameLen_eq_thm
+  metaLen_eq := metaLen_eq_thm
+  keyLocLen_eq := keyLocLen_eq_thm
+  sigInfoLen_eq := sigInfoLen_eq_thm
+  linksLen_eq := linksLen_eq_thm
+  makeData_flatten := makeData_flatten_thm
+  makeInterest_flatten := makeInterest_flatten_thm
 
 end Ndn.C03
